@@ -325,12 +325,14 @@ func wrapTo(x string, t types.Type) string {
 	if !ok {
 		return x
 	}
+	// identity inside the range, explicit wrap-around outside (equivalent to the
+	// plain modulus, but the common case needs no modular reasoning)
 	if lo.Sign() == 0 {
 		m := new(big.Int).Add(hi, big.NewInt(1))
-		return S("wrapu", x, m.String())
+		return Ite(And(S("<=", "0", x), S("<=", x, hi.String())), x, S("wrapu", x, m.String()))
 	}
 	h := new(big.Int).Add(hi, big.NewInt(1))
-	return S("wraps", x, h.String())
+	return Ite(And(S("<=", IntLit(lo), x), S("<=", x, hi.String())), x, S("wraps", x, h.String()))
 }
 
 // typeInv lists facts true of every well-typed value of type t held in term x:
